@@ -5,6 +5,7 @@
   what the implementation gave, `some why` otherwise.
 -/
 import InjModel.Generated.Fns
+import InjModel.Model.A64
 import Driver.Util
 namespace Driver.Gen
 open Inj Inj.Rt
@@ -154,6 +155,21 @@ def macRestoreFlushed (func : Nat) (saved : List Nat) (jit remap : Nat) : Bool :
   match r.1, copyPos r.2.log with
   | Res.ok _, some i => macInvalidated r.2.log (i + 1) func saved.length
   | _, _ => false
+
+/-- C11 on the Windows / AArch64 allocator as translated (`GenWinA64`; there is no Windows to run): run on a page
+    size and a script of `VirtualAlloc` answers (0 = NULL).  An accepted placement must be one the entry encoder
+    (`A64.entryLinux`, shared by Linux and Windows) can reach, and every placement that was obtained and not
+    returned must have been released. -/
+def winAlloc (src page : Nat) (answers : List Nat) : Bool × Bool :=
+  let r := run (GenWinA64.allocate_jit_memory_windows Mode.debug (answers.length + 2) src 20)
+    (os0 (Val.n page :: answers.map (fun a => Val.n (Int.ofNat a))))
+  let used := (r.2.log.filter (·.1 == "VirtualAlloc")).length
+  let obtained := ((answers.take used).filter (· != 0)).length
+  let freed := (r.2.log.filter (·.1 == "VirtualFree")).length
+  match r.1 with
+  | Res.ok a =>
+    ((match A64.entryLinux src a with | Res.ok _ => true | Res.panic _ => false), obtained == freed + 1)
+  | Res.panic _ => (true, obtained == freed)
 
 /-- fold the translated function's verdict into a line verdict: a difference is a disagreement
     (between the source as translated and the implementation's observation) -/
